@@ -74,6 +74,7 @@ func MergeErrors(ctx context.Context, cs ...<-chan error) chan error {
 	// copies values from c to out until c is closed, then calls
 	// wg.Done.
 	output := func(c <-chan error) {
+		defer wg.Done()
 		for n := range c {
 			select {
 			case <-ctx.Done():
@@ -81,7 +82,6 @@ func MergeErrors(ctx context.Context, cs ...<-chan error) chan error {
 			case out <- n:
 			}
 		}
-		wg.Done()
 	}
 	wg.Add(len(cs))
 	for _, c := range cs {
